@@ -1006,7 +1006,9 @@ class UTPM(Ring, RawAlgorithmsMixIn):
         else:
             xbar, = out
 
-        xbar.data.real = ybar.data
+        if not numpy.shares_memory(xbar.data, ybar.data):
+            # (when y is a view of x, ybar already is the real part of xbar)
+            xbar.data.real += ybar.data
 
     @classmethod
     def imag(cls, x):
@@ -1021,7 +1023,11 @@ class UTPM(Ring, RawAlgorithmsMixIn):
 
         else:
             xbar, = out
-        xbar.data.imag = -ybar.data
+        if numpy.shares_memory(xbar.data, ybar.data):
+            # y is a view of x: ybar is the imaginary part of xbar itself
+            xbar.data.imag = -ybar.data
+        else:
+            xbar.data.imag -= ybar.data
 
 
     @classmethod
